@@ -39,14 +39,35 @@ type CLCase struct {
 	// widths of the varints the raw peer writes (Via "raw"; see varintWidth in rawlib_test.go)
 	VSeed uint64 `json:"vseed,omitempty"`
 	VDens int    `json:"vdens,omitempty"`
+	// further unidirectional streams of the raw peer (Via "raw"; see UniOpen in rawlib_test.go)
+	XUni []UniOpen `json:"xuni,omitempty"`
 }
 
 func genCLCase(t *rapid.T) CLCase {
 	c := CLCase{Seed: rapid.Uint64().Draw(t, "seed")}
 	c.Dir = rapid.SampledFrom([]string{"req", "rsp"}).Draw(t, "dir")
 	c.Via = rapid.SampledFrom([]string{"api", "raw"}).Draw(t, "via")
-	c.Declared = rapid.OneOf(rapid.IntRange(1, 40), rapid.IntRange(1, 5000), rapid.IntRange(4000, 20000), rapid.IntRange(20000, 150000)).Draw(t, "declared")
-	switch rapid.IntRange(0, 8).Draw(t, "rel") {
+	// Declared 0 is an explicit declaration on the wire ("content-length: 0") and, for a handler, in the response header:
+	// any DATA byte then makes the message malformed exactly like one byte beyond a positive length (RFC 9114 4.1.2).
+	// Only the in-tree CLIENT API cannot express it: Request.ContentLength 0 with a non-nil body means "unknown"
+	// (request_writer.go actualContentLength), so req/api keeps declaring >= 1.
+	c.Declared = rapid.OneOf(rapid.SampledFrom([]int{0, 0, 1}), rapid.IntRange(1, 40), rapid.IntRange(1, 5000), rapid.IntRange(4000, 20000), rapid.IntRange(20000, 150000)).Draw(t, "declared")
+	if c.Declared == 0 && c.Dir == "req" && c.Via == "api" {
+		c.Declared = 1
+	}
+	rel := rapid.IntRange(0, 8).Draw(t, "rel")
+	if c.Declared == 0 {
+		// nothing can be shorter than 0: control (no content), one byte, many bytes
+		switch rel {
+		case 0, 1, 2:
+			rel = 0
+		case 3, 4:
+			rel = 4
+		default:
+			rel = 5
+		}
+	}
+	switch rel {
 	case 0:
 		c.Actual = c.Declared // control
 	case 1:
@@ -86,6 +107,7 @@ func genCLCase(t *rapid.T) CLCase {
 	c.CliLogger = rapid.Bool().Draw(t, "clilogger")
 	if c.Via == "raw" {
 		c.VSeed, c.VDens = genVarintEnc(t)
+		c.XUni = genExtraUni(t)
 	}
 	return c
 }
@@ -150,7 +172,10 @@ func checkCL(c CLCase, u *vf.Unit) *vf.Verdict {
 	var v *vf.Verdict
 	setVarintEnc(c.VSeed, c.VDens)
 	defer setVarintEnc(0, 0)
+	setExtraUni(c.XUni)
+	defer setExtraUni(nil)
 	if c.Via == "raw" {
+		u.Class("extra-uni:" + extraUniClass(c.XUni))
 		u.Class(fmt.Sprintf("varint-density:%d", c.VDens))
 	}
 	sim.Bubble(curT, 40*time.Second, func() { v = runCL(c, u) }, func(rep sim.LeakReport) {
@@ -158,6 +183,7 @@ func checkCL(c CLCase, u *vf.Unit) *vf.Verdict {
 			v = vf.Bad("C18/leak/goroutines", "%d goroutines still alive 40 s (virtual) after shutdown:\n%s", rep.Count, rep.Dump)
 		}
 	})
+	noteExtraUni(v, c.XUni)
 	return v
 }
 
@@ -422,6 +448,7 @@ func judgeCL(c CLCase, o *clOutcome, followErr error, u *vf.Unit) *vf.Verdict {
 		return vf.Bad("C18/content-length/extended", "%s: the receiver read %d bytes, more than the declared length: %v", desc, r.N, r)
 	}
 	dirName := map[string]string{"req": "request", "rsp": "response"}[c.Dir]
+	var zeroWrite *vf.Verdict
 	switch rel {
 	case "equal":
 		if c.Dir == "req" && !o.invoked {
@@ -452,7 +479,15 @@ func judgeCL(c CLCase, o *clOutcome, followErr error, u *vf.Unit) *vf.Verdict {
 		if c.Via == "api" && c.Dir == "rsp" {
 			// the handler must be told (net/http: Write returns http.ErrContentLength), and the caller sees at most what was accepted
 			if o.overflow && !errors.Is(o.writeErr, http.ErrContentLength) {
-				return vf.Bad("C18/content-length/long-response-write-accepted", "%s: a Write beyond the declared Content-Length returned %v, want http.ErrContentLength", desc, o.writeErr)
+				if c.Declared != 0 {
+					return vf.Bad("C18/content-length/long-response-write-accepted", "%s: a Write beyond the declared Content-Length returned %v, want http.ErrContentLength", desc, o.writeErr)
+				}
+				// declared 0: own root cause (response_writer.go uses contentLen 0 as "not declared"), judged last so that
+				// it does not hide what the caller observes
+				zeroWrite = vf.Bad("C18/content-length/zero-length-response-write-accepted", "%s: the handler declared Content-Length: 0 and then wrote %d bytes; Write returned %v, want http.ErrContentLength (net/http refuses every byte beyond the declared length, 0 included); the bytes went out in DATA frames after \"content-length: 0\" = a malformed response (RFC 9114 4.1.2); the caller of RoundTrip got: status %d, body %v, RoundTrip error %v", desc, o.writeN, o.writeErr, o.status, r, o.rtErr)
+			}
+			if o.writeN > c.Declared && !errored {
+				return vf.Bad("C18/content-length/long-response-body", "%s: %d bytes were accepted from the handler and sent although only %d were declared, and the caller's body reader ended with a clean EOF: %v", desc, o.writeN, c.Declared, r)
 			}
 			if o.writeN < c.Declared && !errored {
 				return vf.Bad("C18/content-length/short-response-body", "%s: the handler's accepted writes total %d of %d declared bytes (the overflowing Write was refused), yet the caller read a clean EOF: %v", desc, o.writeN, c.Declared, r)
@@ -484,8 +519,14 @@ func judgeCL(c CLCase, o *clOutcome, followErr error, u *vf.Unit) *vf.Verdict {
 	if followErr != nil {
 		return vf.Bad("C18/content-length/follow-up-failed", "%s: a well-formed request after the mismatching one failed: %v", desc, followErr)
 	}
+	if zeroWrite != nil {
+		return zeroWrite
+	}
 	u.Class(rel)
 	u.Class(c.Dir + "/" + c.Via + "/" + rel)
+	if c.Declared <= 1 {
+		u.Class(fmt.Sprintf("declared-%d:%s/%s/%s", c.Declared, c.Dir, c.Via, rel))
+	}
 	if c.Trailers {
 		u.Class("with-trailers")
 	}
